@@ -599,3 +599,48 @@ def handler_around_loop(ctx, modules, rule="LINT-j"):
         ctx.bad(rule, f"{ctx.ix.scope_name(m, node)}|except {', '.join(sorted(names))} around `{short(node.body[-1], 40)}`", ctx.where(m, h),
                 f"the handler for {', '.join(sorted(names))} encloses the whole loop: the first item that raises ends the loop, and the items after it are silently not processed")
   return n
+
+
+# (k) -------------------------------------------------------------------------------------
+_NUM_ANN = {"int", "float", "Fraction", "Number", "Real", "Rational"}
+
+
+def numeric_field_truthiness(ctx, classes, rule="LINT-k"):
+  """`if self.x:` / `a if self.x else b` / `self.x and ...` where x is an instance field declared
+  with a numeric type: the test is also false for the number 0, which is a legal value of such a
+  field (a line position of 0 %, an offset of 0 s), so 0 is treated like "not set"."""
+  n = 0
+  for c in classes:
+    init = c.methods.get("__init__")
+    if init is None:
+      continue
+    numeric = set()
+    for st in own_nodes(init.node):
+      if isinstance(st, ast.AnnAssign) and isinstance(st.target, ast.Attribute) and isinstance(st.target.value, ast.Name) and st.target.value.id == "self":
+        names = {x.id for x in ast.walk(st.annotation) if isinstance(x, ast.Name)} | {x.attr for x in ast.walk(st.annotation) if isinstance(x, ast.Attribute)}
+        if names & _NUM_ANN and not names & {"bool", "str", "List", "Dict", "list", "dict", "Set", "Tuple"}:
+          numeric.add(st.target.attr)
+    if not numeric:
+      continue
+    for m in c.methods.values():
+      for node in own_nodes(m.node):
+        tests = []
+        if isinstance(node, (ast.If, ast.IfExp, ast.While)):
+          tests = [node.test]
+        elif isinstance(node, ast.BoolOp):
+          tests = node.values[:-1] if isinstance(node.op, (ast.And, ast.Or)) else []
+        for t in tests:
+          parts = [t]
+          while parts:
+            p_ = parts.pop()
+            if isinstance(p_, ast.UnaryOp) and isinstance(p_.op, ast.Not):
+              parts.append(p_.operand)
+            elif isinstance(p_, ast.BoolOp):
+              parts.extend(p_.values)
+            elif isinstance(p_, ast.Attribute) and isinstance(p_.value, ast.Name) and p_.value.id == "self" and p_.attr in numeric:
+              n += 1
+              ctx.unit(c.module)
+              ctx.bad(rule, f"{m.qualname}|truthiness of self.{p_.attr}", ctx.where(m.module, p_),
+                      f"`self.{p_.attr}` is a number ({c.name}.__init__ declares it so) and is tested by truthiness: the value 0 takes the branch for `not set` "
+                      f"(e.g. a line position of 0 % is dropped); test `is not None` instead")
+  return n
